@@ -169,6 +169,14 @@ func c08Gen(t *rapid.T) advScenario {
 	if rapid.IntRange(0, 5).Draw(t, "statedelay") == 0 {
 		sc.StateDelayNS = rapid.SampledFrom([]int64{1, int64(time.Millisecond), 300 * int64(time.Millisecond)}).Draw(t, "sd")
 	}
+	if len(sc.Lat) > 0 && sc.Lat[0].NS > 0 && rapid.IntRange(0, 2).Draw(t, "failsafterstop") == 0 {
+		// a transmission that is in flight when the stop arrives and fails afterwards (the link went away): the stop
+		// still ends with the final advertisement (terminate) and without an error
+		sc.Lat[0].Err, sc.Lat[0].AfterStop = rapid.SampledFrom([]string{"syscall", "syscall:ENOBUFS", "other"}).Draw(t, "lateerr"), true
+		if sc.Lat[0].Dst == "any" {
+			sc.Lat[0].Dst = "unicast" // (the final advertisement itself is a multicast write after the stop)
+		}
+	}
 	return sc
 }
 
